@@ -100,6 +100,7 @@ pub fn run(ctx: &Ctx) -> Report {
         cv.push(MCmd::Prepare(b"p".to_vec()), Some(Script::PrepOk { id: 0x0A0B_0C0D, params: param_cols(np), cols: vec![] }));
         cv.push(MCmd::Execute { id: 0x0A0B_0C0D, params: params.clone(), send_types: true }, None);
         let mut case = cv.case();
+        vary_transport(rng, &mut case);
         case.conv = true;
         let obs = run_case(&case);
         rep.evaluations += 1;
